@@ -111,9 +111,28 @@ class ExprMixin:
         """spec / pure evaluation: exactly one non-raising result"""
         r = self.eval(e, st)
         r = [(s, v) for s, v in r]
+        if len(r) > 1 and not any(isinstance(v, Exc) for _, v in r):
+            # the evaluation forked on the shape of a union-typed value: the results are merged under the conditions that tell the shapes apart
+            n0 = len(st.pc)
+            m = self.merge_values([(z3.And(s.pc[n0:]) if len(s.pc) > n0 else z3.BoolVal(True), lift(v)) for s, v in r])
+            if m is not None:
+                return m
         if len(r) != 1 or isinstance(r[0][1], Exc):
             raise Unsupported(f"expression is not single-valued: {ast.unparse(e)[:80]} -> {len(r)} results")
         return r[0][1]
+
+    def merge_values(self, alts):
+        """[(condition, value)] with exhaustive, exclusive conditions -> one value (If-chain), or None when the shapes differ"""
+        vals = [v for _, v in alts]
+        if all(is_z3(v) for v in vals) and len({v.sort() for v in vals}) == 1:
+            out = vals[-1]
+            for c, v in reversed(alts[:-1]):
+                out = z3.If(c, v, out)
+            return out
+        if all(isinstance(v, PyTuple) for v in vals) and len({len(v.items) for v in vals}) == 1:
+            items = [self.merge_values([(c, v.items[k]) for c, v in alts]) for k in range(len(vals[0].items))]
+            return None if any(x is None for x in items) else PyTuple(items)
+        return None
 
     def e_Constant(self, e, st):
         v = e.value
@@ -278,6 +297,11 @@ class ExprMixin:
                     out.append((s1, v))
                     continue
                 rest_pure = all(self.is_pure(x) for x in e.values[idx + 1:])
+                if is_z3(lift(v)) and is_bool(Tr(v)):
+                    g0 = z3.simplify(Tr(v))
+                    if (z3.is_false(g0) and is_and) or (z3.is_true(g0) and not is_and):
+                        out.append((s1, v))          # decided: the rest is not evaluated (it need not even be well-typed here)
+                        continue
                 if rest_pure and (is_bool(v) or self.spec_mode):
                     # no fork: evaluate the rest under the guard, combine symbolically
                     g = Tr(v)
@@ -480,7 +504,7 @@ class ExprMixin:
             return self.bind(self.eval(e.value, st), k)
 
         def k2(s, vals):
-            return [(s, self.index(s, vals[0], vals[1], e))]
+            return self.split_union(s, self.index(s, vals[0], vals[1], e))
         return self.bind(self.eval_list([e.value, e.slice], st), k2)
 
     def norm_index(self, n, i):
